@@ -346,15 +346,16 @@ func AddStructType(currentNodeName string, x *ast.StructType, currentFile *core_
 	var ioproperties []core_domain.CodeProperty
 	var calls []core_domain.CodeCall
 	for _, field := range x.Fields.List {
-		property := BuildPropertyField(getFieldName(field), field)
-		member.FileID = currentFile.FullName
-		ioproperties = append(ioproperties, *property)
+		for _, property := range BuildFieldToProperty([]*ast.Field{field}) {
+			member.FileID = currentFile.FullName
+			ioproperties = append(ioproperties, property)
 
-		call := core_domain.CodeCall{
-			Package:  getPackageName(property.TypeValue, "", currentFile.Imports),
-			NodeName: property.TypeValue,
+			call := core_domain.CodeCall{
+				Package:  getPackageName(property.TypeValue, "", currentFile.Imports),
+				NodeName: property.TypeValue,
+			}
+			calls = append(calls, call)
 		}
-		calls = append(calls, call)
 	}
 
 	// todo : when dsMap key-value create it
